@@ -1,6 +1,10 @@
 package main
 
 import (
+	"fmt"
+	"go/token"
+	"go/types"
+	"sort"
 	"strings"
 
 	"golang.org/x/tools/go/ssa"
@@ -8,80 +12,349 @@ import (
 
 // c51SingleIssuance: Manager.certState decides under ONE critical section of
 // stateMu whether a state for the certificate key exists and, if not, inserts
-// the new one: the map lookup and the map insertion both hold m.stateMu, no
-// release of m.stateMu lies on any path between them (check-then-act must be
-// atomic, otherwise two first-time requests for the same name both become
-// owners and both start an issuance), the new state is locked before it
-// becomes visible in the map, and "owner = true" is returned only on the
-// inserting path.
+// the new one. Decided by walking certState with its same-package helpers
+// expanded in place and tracking, along every path, (held) whether
+// Manager.stateMu is held, (phase) whether the state map has been consulted in
+// the current critical section, (locked) which freshly allocated states have
+// been write-locked, (inserted) whether this path put a state into the map,
+// (facts) the truth of the boolean values branched on in certState and what
+// the return taken inside a helper says about the call's results (nil / non-nil
+// / constant), so that a branch contradicting the path is not followed:
+//   - the map is only consulted / extended while stateMu is held;
+//   - an insertion is preceded, in the same critical section, by a lookup
+//     (check-then-act is atomic; a re-check after re-locking is accepted);
+//   - the inserted state has been locked before it becomes visible;
+//   - the owner result, evaluated under the facts of the path (a constant, a
+//     branched-on value or its negation, a phi of those), is true only on paths
+//     that inserted.
+//
+// The map, the mutex and the state are identified by field / allocation, not
+// by the names of receivers or locals, and the facts hold wherever lookup,
+// insertion, locking or construction are factored to.
+type c51LkState struct {
+	cx       *c51Cx
+	b        *ssa.BasicBlock
+	i        int
+	held     bool
+	phase    int // 0 no lookup in this critical section, 1 looked up and still locked, 2 released since
+	inserted bool
+	locked   string
+	facts    string
+}
+
+func c51IsStateMap(v ssa.Value, cx *c51Cx) bool {
+	typ, fld, _, ok := fieldOf(c51Resolve(v, cx).v)
+	return ok && typ == "Manager" && fld == "state"
+}
+
+// c51LockEvent classifies a (non-deferred) call as Lock (+1) / Unlock (-1) and
+// names what is locked: "stateMu" or the allocation whose mutex it is.
+func c51LockEvent(cc *ssa.CallCommon, cx *c51Cx) (what string, delta int) {
+	if cc == nil || len(cc.Args) == 0 {
+		return "", 0
+	}
+	switch calleeName(cc) {
+	case "(*sync.Mutex).Lock", "(*sync.RWMutex).Lock":
+		delta = 1
+	case "(*sync.Mutex).Unlock", "(*sync.RWMutex).Unlock":
+		delta = -1
+	default:
+		return "", 0
+	}
+	root, fields := c51Chain(cc.Args[0], cx)
+	if len(fields) > 0 && fields[len(fields)-1] == "stateMu" {
+		return "stateMu", delta
+	}
+	if al, ok := root.v.(*ssa.Alloc); ok {
+		return fmt.Sprintf("%p", al), delta
+	}
+	return "", 0
+}
+
+func c51HasTag(set, tag string) bool {
+	return strings.Contains(";"+set, ";"+tag+";")
+}
+
+func c51FactGet(facts string, v ssa.Value) (val, ok bool) {
+	key := fmt.Sprintf(";%p=", v)
+	i := strings.Index(";"+facts, key)
+	if i < 0 {
+		return false, false
+	}
+	return (";" + facts)[i+len(key)] == '1', true
+}
+
+func c51FactSet(facts string, v ssa.Value, known, val bool) string {
+	key := fmt.Sprintf("%p=", v)
+	var parts []string
+	for _, p := range strings.Split(facts, ";") {
+		if p != "" && !strings.HasPrefix(p, key) {
+			parts = append(parts, p)
+		}
+	}
+	if known {
+		parts = append(parts, key+fmt.Sprint(c51B2I(val)))
+	}
+	sort.Strings(parts)
+	if len(parts) == 0 {
+		return ""
+	}
+	return strings.Join(parts, ";") + ";"
+}
+
+// c51FactEval: the value of a boolean under the facts of the path.
+func c51FactEval(facts string, v ssa.Value, d int) (val, ok bool) {
+	if b, isB := constBool(v); isB {
+		return b, true
+	}
+	if b, known := c51FactGet(facts, v); known {
+		return b, true
+	}
+	if u, isU := v.(*ssa.UnOp); isU && u.Op == token.NOT && d < 6 {
+		b, known := c51FactEval(facts, u.X, d+1)
+		return !b, known
+	}
+	// x == nil / x != nil for a helper result whose nil-ness is a fact
+	if bo, isB := v.(*ssa.BinOp); isB && (bo.Op == token.EQL || bo.Op == token.NEQ) {
+		var other ssa.Value
+		switch {
+		case isNilConst(bo.Y):
+			other = bo.X
+		case isNilConst(bo.X):
+			other = bo.Y
+		}
+		if other != nil {
+			if isNil, known := c51FactGet(facts, other); known {
+				return isNil == (bo.Op == token.EQL), true
+			}
+		}
+	}
+	return false, false
+}
+
 func c51SingleIssuance(c *Ctx) {
 	f := c.fn("acme/autocert", "(*Manager).certState")
 	if f == nil {
 		return
 	}
-	var lookups []ssa.Instruction
-	var updates []*ssa.MapUpdate
-	allInstrs(f, func(in ssa.Instruction) {
-		switch x := in.(type) {
-		case *ssa.Lookup:
-			if strings.HasSuffix(accessPath(x.X), ".state") {
-				lookups = append(lookups, x)
-			}
-		case *ssa.MapUpdate:
-			if strings.HasSuffix(accessPath(x.Map), ".state") {
-				updates = append(updates, x)
-			}
-		}
-	})
-	if len(lookups) != 1 || len(updates) != 1 {
-		c.fail("C51.single-issuance", "(*Manager).certState", f, "state map lookup / insertion not found exactly once (anchor lost)")
-		return
-	}
-	lk, up := lookups[0], updates[0]
-	li := computeLocks(f)
-	held := li.at(lk).holds("", ".stateMu") && li.at(up).holds("", ".stateMu")
-	// no (non-deferred) release of stateMu between the lookup and the insertion
-	gap := false
-	allInstrs(f, func(in ssa.Instruction) {
-		p, d := lockOp(in)
-		if d >= 0 || !strings.HasSuffix(p, ".stateMu") {
-			return
-		}
-		afterLookup := in.Block() == lk.Block() && precedes(lk, in) || reachAfter(lk, nil)[in.Block()] && in.Block() != lk.Block()
-		beforeUpdate := in.Block() == up.Block() && precedes(in, up) || reachAfter(in, nil)[up.Block()] && in.Block() != up.Block()
-		if afterLookup && beforeUpdate {
-			gap = true
-		}
-	})
-	c.check(held && !gap, "C51.single-issuance", "lookup and insertion in one critical section", up, "m.state is consulted and extended while m.stateMu is held continuously", "m.stateMu is released between the lookup and the insertion of a certificate state: concurrent first requests for one name each insert a state and each start an issuance")
-	// the new state is locked before it is published
-	okLocked := false
-	if al, ok := stripConv(up.Value).(*ssa.Alloc); ok {
-		for _, ci := range calls(f, func(n string) bool { return n == "(*sync.RWMutex).Lock" || n == "(*sync.Mutex).Lock" }) {
-			recv := ci.Common().Args[0]
-			if fa, isF := recv.(*ssa.FieldAddr); isF && fa.X == ssa.Value(al) {
-				if ci.Block() == up.Block() && precedes(ci, up) || ci.Block() != up.Block() && ci.Block().Dominates(up.Block()) {
-					okLocked = true
+	root := &c51Cx{fn: f}
+	deferredRelease := map[*ssa.Function]bool{}
+	for _, g := range deepFuncs(f) {
+		allInstrs(g, func(in ssa.Instruction) {
+			if d, ok := in.(*ssa.Defer); ok {
+				if what, delta := c51LockEvent(&d.Call, &c51Cx{fn: g}); what == "stateMu" && delta < 0 {
+					deferredRelease[g] = true
 				}
 			}
+		})
+	}
+	viol := map[string]ssa.Instruction{}
+	note := func(kind string, at ssa.Instruction) {
+		if _, ok := viol[kind]; !ok {
+			viol[kind] = at
 		}
 	}
-	c.check(okLocked, "C51.single-issuance", "new state locked before publication", up, "state.Lock() precedes m.state[ck] = state", "the new certificate state becomes visible before it is locked: a second request can use it while the first is still issuing")
-	// owner flag
-	okOwner := true
-	n := 0
-	for _, r := range returnsOf(f) {
-		b, isB := constBool(retVal(r, 1))
-		if !isB {
-			okOwner = false
+	nLookup, nUpdate, nOwner := 0, 0, 0
+	var firstUpdate ssa.Instruction
+	seen := map[c51LkState]bool{}
+	stack := []c51LkState{{cx: root, b: f.Blocks[0]}}
+	steps := 0
+	for len(stack) > 0 && steps < 200000 {
+		st := stack[len(stack)-1]
+		stack = stack[:len(stack)-1]
+		if seen[st] {
 			continue
 		}
-		if b {
-			n++
-			if !(up.Block() == r.Block() || up.Block().Dominates(r.Block())) {
-				okOwner = false
+		seen[st] = true
+		steps++
+		b := st.b
+		ended := false
+		for i := st.i; i < len(b.Instrs) && !ended; i++ {
+			in := b.Instrs[i]
+			switch x := in.(type) {
+			case *ssa.Lookup:
+				if c51IsStateMap(x.X, st.cx) {
+					nLookup++
+					if !st.held {
+						note("unlocked", x)
+					} else {
+						st.phase = 1
+					}
+				}
+			case *ssa.MapUpdate:
+				if c51IsStateMap(x.Map, st.cx) {
+					nUpdate++
+					if firstUpdate == nil {
+						firstUpdate = x
+					}
+					if !st.held {
+						note("unlocked", x)
+					} else if st.phase != 1 {
+						note("gap", x)
+					}
+					al, _ := c51Resolve(x.Value, st.cx).v.(*ssa.Alloc)
+					if al == nil || !c51HasTag(st.locked, fmt.Sprintf("%p", al)) {
+						note("unlockedState", x)
+					}
+					st.inserted = true
+				}
+			case *ssa.RunDefers:
+				if deferredRelease[st.cx.fn] && !st.cx.isRoot() {
+					st.held = false
+					if st.phase == 1 {
+						st.phase = 2
+					}
+				}
+			case *ssa.Call:
+				if what, d := c51LockEvent(&x.Call, st.cx); d != 0 && what != "" {
+					switch {
+					case what == "stateMu" && d > 0:
+						st.held = true
+						st.phase = 0
+					case what == "stateMu" && d < 0:
+						st.held = false
+						if st.phase == 1 {
+							st.phase = 2
+						}
+					case d > 0 && !c51HasTag(st.locked, what):
+						st.locked += what + ";"
+					}
+					continue
+				}
+				if H := samePkgCallee(f, &x.Call); H != nil && st.cx.depth < c51Depth && !st.cx.active(H) {
+					nx := st
+					nx.cx, nx.b, nx.i = st.cx.kid(x, H), H.Blocks[0], 0
+					stack = append(stack, nx)
+					ended = true
+				}
+			case *ssa.Return:
+				if st.cx.isRoot() {
+					owner, known := c51FactEval(st.facts, retVal(x, 1), 0)
+					switch {
+					case !known:
+						note("ownerUnknown", x)
+					case owner:
+						nOwner++
+						if !st.inserted {
+							note("ownerWrong", x)
+						}
+					}
+				} else {
+					call := st.cx.call
+					nx := st
+					if st.cx.parent.isRoot() {
+						// what this return tells the root about the call's results
+						// (nil-ness as a fact "value is nil", booleans as themselves)
+						for ri := range x.Results {
+							rv := retVal(x, ri)
+							var tgt []ssa.Value
+							if len(x.Results) == 1 {
+								tgt = []ssa.Value{call}
+							} else if refs := call.Referrers(); refs != nil {
+								for _, r := range *refs {
+									if ex, ok := r.(*ssa.Extract); ok && ex.Index == ri {
+										tgt = append(tgt, ex)
+									}
+								}
+							}
+							val, known := false, false
+							if b, isB := constBool(rv); isB {
+								val, known = b, true
+							} else if isNilConst(rv) {
+								val, known = true, true
+							} else if _, isA := rv.(*ssa.Alloc); isA {
+								val, known = false, true
+							} else if rv != nil && types.IsInterface(rv.Type()) {
+								switch errNilness(rv, x.Block(), 0) {
+								case neverNil:
+									val, known = false, true
+								case definitelyNil:
+									val, known = true, true
+								}
+							}
+							for _, t := range tgt {
+								nx.facts = c51FactSet(nx.facts, t, known, val)
+							}
+						}
+					}
+					nx.cx, nx.b, nx.i = st.cx.parent, call.Block(), instrIndex(call)+1
+					stack = append(stack, nx)
+				}
+				ended = true
+			case *ssa.Panic:
+				ended = true
 			}
 		}
+		if ended {
+			continue
+		}
+		var cond ssa.Value
+		if iff, ok := b.Instrs[len(b.Instrs)-1].(*ssa.If); ok && st.cx.isRoot() {
+			cond = iff.Cond
+		}
+		for k, s := range b.Succs {
+			nx := st
+			nx.b, nx.i = s, 0
+			if cond != nil {
+				if cv, known := c51FactEval(st.facts, cond, 0); known && cv != (k == 0) {
+					continue // contradicts what this path already decided
+				}
+				nx.facts = c51FactSet(nx.facts, cond, true, k == 0)
+			}
+			if st.cx.isRoot() {
+				// phis of s take the value of the edge the path arrives over
+				idx := -1
+				for pi, p := range s.Preds {
+					if p == b {
+						idx = pi
+					}
+				}
+				base := nx.facts
+				for _, in := range s.Instrs {
+					ph, ok := in.(*ssa.Phi)
+					if !ok {
+						break
+					}
+					if idx >= 0 {
+						pv, known := c51FactEval(base, ph.Edges[idx], 0)
+						nx.facts = c51FactSet(nx.facts, ph, known, pv)
+					}
+				}
+			}
+			stack = append(stack, nx)
+		}
 	}
-	c.check(okOwner && n == 1, "C51.single-issuance", "owner only for the inserting request", f, "true is returned exactly on the path that inserted the state", "a request that did not insert the state can be told it owns the issuance")
+	if nLookup == 0 || nUpdate == 0 {
+		c.fail("C51.single-issuance", "(*Manager).certState", f, "no lookup in / insertion into Manager.state found in certState or its helpers (anchor lost)")
+		return
+	}
+	var at poser = firstUpdate
+	bad := viol["unlocked"]
+	if bad == nil {
+		bad = viol["gap"]
+	}
+	if bad != nil {
+		at = bad
+	}
+	detail := "m.stateMu is released between the lookup and the insertion of a certificate state: concurrent first requests for one name each insert a state and each start an issuance"
+	if viol["unlocked"] != nil {
+		detail = "Manager.state is consulted or extended while m.stateMu is not held; " + detail
+	}
+	c.check(bad == nil, "C51.single-issuance", "lookup and insertion in one critical section", at, "on every path (helpers expanded) m.state is consulted and extended while m.stateMu is held, and an insertion follows a lookup made in the same critical section", detail)
+	at = firstUpdate
+	if viol["unlockedState"] != nil {
+		at = viol["unlockedState"]
+	}
+	c.check(viol["unlockedState"] == nil, "C51.single-issuance", "new state locked before publication", at, "the inserted state has been write-locked on every path to the insertion", "the new certificate state becomes visible before it is locked: a second request can use it while the first is still issuing")
+	at = f
+	why := ""
+	switch {
+	case viol["ownerWrong"] != nil:
+		at, why = viol["ownerWrong"], "a request that did not insert the state can be told it owns the issuance"
+	case viol["ownerUnknown"] != nil:
+		at, why = viol["ownerUnknown"], "the owner result does not evaluate under the branches taken on this path (cannot be tied to the insertion)"
+	case nOwner == 0:
+		why = "no path reports ownership"
+	}
+	c.check(why == "", "C51.single-issuance", "owner only for the inserting request", at, "owner = true is returned only on paths that inserted the state", why)
 }
